@@ -17,7 +17,7 @@ import os
 import sys
 
 from ..core import env, par, shrink
-from ..core.result import Failure, Report
+from ..core.result import Failure, Report, robust
 from ..ref import cond, fscan
 from . import c01
 
@@ -324,7 +324,7 @@ def _cond_work(progs):
     out = []
     seen = set()
     for program, ci in fails[:10]:
-        f = c01.mk_failure(program, ci, ".F90")
+        f = robust(c01.mk_failure, {"lines": c01.lines_of(program, ".F90"), "config": c01.CONFIGS[ci][0]}, program, ci, ".F90")
         if f and f.key() not in seen:
             seen.add(f.key())
             f["kind"] = "fortran-" + f["kind"]
@@ -400,7 +400,7 @@ def _inherit_outside(_):
 
 
 def _mk(tv):
-    return mk_failure(*tv)
+    return robust(mk_failure, {"text": tv[0], "via": tv[1]}, *tv)
 
 
 def run(tier):
